@@ -304,6 +304,16 @@ class GarbageCollector:
         # table-relative paths the storage listing returns ("data/x.parquet"),
         # and stripping it there made every live file look like an orphan.
         root = self.table_path.rstrip("/")
-        if root and os.path.isabs(root) and (path == root or path.startswith(root + "/")):
+        # A path whose first component is "data" or "metadata" is table-relative
+        # (Iceberg style "/data/x.parquet") - that is how the read path resolves
+        # it, too. Without this a table located at the absolute path "/data"
+        # had "/data/x.parquet" reduced to "x.parquet" and lost its live files.
+        first = path.lstrip("/").split("/", 1)[0]
+        if (
+            root
+            and os.path.isabs(root)
+            and first not in ("data", "metadata")
+            and (path == root or path.startswith(root + "/"))
+        ):
             path = path[len(root):]
         return path.lstrip("/")
